@@ -1,23 +1,14 @@
 import Driver.SC08
-import GbVerif.Model.Timer
+import GbVerif.Model.Sys
 import GbVerif.Spec.Lcd
 namespace Driver
 open GbVerif GbVerif.Core
 
 /-! C09: time conservation over generated programs (`c09`, `c09.blocks`) and the `run_frame` probe (`c09.frame`). -/
 
-def timerOf (t : Bus.TimerRegs) : Timer.State := ⟨t.cycleCount, t.counter, t.modulo, t.enabledMask, t.clockMask, t.control⟩
-def regsOfTimer (t : Timer.State) : Bus.TimerRegs :=
-  { cycleCount := t.cycleCount, counter := t.counter, modulo := t.modulo, enabledMask := t.enabledMask,
-    clockMask := t.timerClockMask, control := t.controlValue }
-
-/-- `MemoryAreas::run_clock_cycles` as far as the generated programs can observe it: the OAM-DMA copy, then the timer
-(model of C13).  The LCD is left out: the programs never read LY/STAT and never enable VBlank/STAT in IE. -/
-def devTimer : Dev := fun b k => do
-  let b ← Bus.runDma b k
-  match Timer.runCycles (timerOf b.io.timer) k with
-  | none => .error (.overflow "timer cycle_count")
-  | some (t, f) => pure { b with io := { b.io with timer := regsOfTimer t, ifl := b.io.ifl ||| (if f then 4 else 0) } }
+/-- `MemoryAreas::run_clock_cycles`: the whole-machine device function (OAM DMA byte by byte, timer, LCD with its frame
+counter, joypad) — `Model/Sys.lean`.  `Props/C09.lean` proves `SysInv` for it. -/
+def devSys : Dev := Sys.dev
 
 /-- `Core::update` with the `jit` feature, interpreter as block engine -/
 def updateBlocks (dev : Dev) (c : State) : Except Bus.Panic State :=
@@ -45,11 +36,13 @@ structure Obs where
   ime : Nat
   run : Nat
   ifl : Nat
+  stat : Nat
+  frames : Nat
 
 def parseObs (s : String) : Obs :=
   let xs := parseNatList s
   let g (i : Nat) := xs.getD i 0
-  ⟨g 0, g 1, g 2, g 3, g 4, g 5, g 6, g 7, g 8, g 9, g 10, g 11, g 12⟩
+  ⟨g 0, g 1, g 2, g 3, g 4, g 5, g 6, g 7, g 8, g 9, g 10, g 11, g 12, g 13, g 14⟩
 
 /-- LY of the closed-form LCD schedule (C14) after `t` clocks from power-on -/
 def lyAfter (t : Nat) : Nat := (LcdSpec.sched t).line
@@ -65,7 +58,7 @@ def checkRun (l : Line) (blocks : Bool) : Verdict := Id.run do
   let image := b            -- the static program image (the programs never write to their own code)
   let regs0 : Interp.Regs := { af := init.getD 0 0, bc := init.getD 1 0, de := init.getD 2 0, hl := init.getD 3 0, sp := 0xdff0, ip := 0xc000 }
   let mut cm : State := { regs := regs0, bus := b, ime := .Disabled, run := .Run }
-  let mut prev : Obs := ⟨0, 0, 0, 144, 0xc000, 0xdff0, regs0.af, regs0.bc, regs0.de, regs0.hl, 1, 0, 0⟩
+  let mut prev : Obs := ⟨0, 0, 0, 144, 0xc000, 0xdff0, regs0.af, regs0.bc, regs0.de, regs0.hl, 1, 0, 0, 0, 0⟩
   let mut total := 0
   let mut k := 0
   let mut nontrivial := false
@@ -100,15 +93,15 @@ def checkRun (l : Line) (blocks : Bool) : Verdict := Id.run do
     if cur.cyc == 5 then nontrivial := true
     -- 2. the model
     if modelOn then
-      match (if blocks then updateBlocks devTimer cm else update devTimer cm) with
+      match (if blocks then updateBlocks devSys cm else update devSys cm) with
       | .error _ => return .modelDiff s!"step {k}: model panics"
       | .ok c' =>
         cm := c'
         let got := [c'.delivered % 65536, c'.regs.cycles, c'.regs.ip, c'.regs.sp, c'.regs.af, c'.regs.bc, c'.regs.de, c'.regs.hl,
-                    imeCode c'.ime, runCode c'.run, c'.bus.io.ifl &&& 0x1c]
-        let imp := [cur.div, cur.cyc, cur.ip, cur.sp, cur.af, cur.bc, cur.de, cur.hl, cur.ime, cur.run, cur.ifl &&& 0x1c]
-        let names := ["clocks delivered", "cycles", "PC", "SP", "AF", "BC", "DE", "HL", "IME", "run state", "IF"]
-        for i in [0:11] do
+                    imeCode c'.ime, runCode c'.run, c'.bus.io.ifl &&& 0x1f, c'.bus.io.video.line, c'.bus.io.video.stat, Sys.frames c']
+        let imp := [cur.div, cur.cyc, cur.ip, cur.sp, cur.af, cur.bc, cur.de, cur.hl, cur.ime, cur.run, cur.ifl &&& 0x1f, cur.ly, cur.stat, cur.frames]
+        let names := ["clocks delivered", "cycles", "PC", "SP", "AF", "BC", "DE", "HL", "IME", "run state", "IF", "LY", "STAT", "frames completed"]
+        for i in [0:14] do
           if got.getD i 0 != imp.getD i 0 then
             return .modelDiff s!"step {k}: {names.getD i ""} model={got.getD i 0} impl={imp.getD i 0}"
         if blocks && prev.run == 0 && c'.lastBlockCycles != cur.lbc then
@@ -121,24 +114,63 @@ def checkRun (l : Line) (blocks : Bool) : Verdict := Id.run do
   let _ := modelOn
   return .ok nontrivial
 
+/-- the harness's `setup`: pattern ROM with the handler at every vector, the program at 0xC000 -/
+def mkCore (prog : List Nat) (af bc de hl : Nat) : Option State := Id.run do
+  let mut b := Bus.create .mbc1 4 32768 c09Rom
+  let mut addr := 0xc000
+  for byte in prog do
+    match Bus.write b addr byte with | .ok b' => b := b' | .error _ => return none
+    addr := addr + 1
+  return some { regs := { af := af, bc := bc, de := de, hl := hl, sp := 0xdff0, ip := 0xc000 }, bus := b, ime := .Disabled, run := .Run }
+
+/-- `frame_program(n0, n1)`: n0 NOPs ; JP loop ; loop: n1 NOPs ; JP loop -/
+def frameProgram (n0 n1 : Nat) : List Nat :=
+  let lp := 0xc000 + n0 + 3
+  List.replicate n0 0 ++ [0xc3, lp % 256, lp / 256] ++ List.replicate n1 0 ++ [0xc3, lp % 256, lp / 256]
+
+/-- `Core::run_frame` (jit build: block stepping) on the whole-machine model: step until the frame counter differs from
+its value at the call -/
+def runFrameModel (start : Nat) (c : State) : Nat → Option State
+  | 0 => none
+  | fuel+1 =>
+    match updateBlocks devSys c with
+    | .error _ => none
+    | .ok c' => if Sys.frames c' != start then some c' else runFrameModel start c' fuel
+
 /-- `run_frame` probe (the real `Core::run_frame` in a child process under an alarm): each of the two calls must return,
-and must return after at most two frames completed by the LCD (the property's bound: two frame periods plus one block) -/
+and must return after at most two frames completed by the LCD (the property's bound: two frame periods plus one block);
+then the same two calls on the whole-machine model: frames completed, LY and mode at return must agree -/
 def checkFrame (l : Line) : Verdict :=
   let blk := l.outN "blk"
-  let bad (which : String) (e f ly m : Nat) : Option Verdict :=
+  let bad (which : String) (e f : Nat) : Option Verdict :=
     if e == 0 then
       some (.specDiff s!"[run_frame.nontermination] {which} run_frame call did not return (killed by the alarm); loop block of {blk} clocks")
     else if f > 2 then
       some (.specDiff s!"[run_frame.late] {which} run_frame call returned only after {f} completed frames (more than two frame periods)")
-    else
-      let _ := (ly, m)      -- with long blocks the call returns at the end of the block in which the frame completed
-      none
-  match bad "first" (l.outN "e1") (l.outN "f1") (l.outN "ly1") (l.outN "m1") with
+    else none
+  match bad "first" (l.outN "e1") (l.outN "f1") with
   | some v => v
   | none =>
-    match bad "second" (l.outN "e2") (l.outN "f2") (l.outN "ly2") (l.outN "m2") with
+    match bad "second" (l.outN "e2") (l.outN "f2") with
     | some v => v
-    | none => .ok (blk > 456)
+    | none =>
+      match mkCore (frameProgram (l.inN "n0") (l.inN "n1")) 0x01b0 0x0013 0x00d8 0x014d with
+      | none => .bad "setup"
+      | some c0 =>
+        match runFrameModel (Sys.frames c0) c0 40000 with
+        | none => .modelDiff "model: first run_frame does not return within 40000 blocks"
+        | some c1 =>
+          let g1 := [Sys.frames c1 - Sys.frames c0, c1.bus.io.video.line, c1.bus.io.video.mode]
+          let i1 := [l.outN "f1", l.outN "ly1", l.outN "m1"]
+          if g1 != i1 then .modelDiff s!"first run_frame (frames, LY, mode): model={g1} impl={i1}"
+          else
+            match runFrameModel (Sys.frames c1) c1 40000 with
+            | none => .modelDiff "model: second run_frame does not return within 40000 blocks"
+            | some c2 =>
+              let g2 := [Sys.frames c2 - Sys.frames c1, c2.bus.io.video.line, c2.bus.io.video.mode]
+              let i2 := [l.outN "f2", l.outN "ly2", l.outN "m2"]
+              if g2 != i2 then .modelDiff s!"second run_frame (frames, LY, mode): model={g2} impl={i2}"
+              else .ok (blk > 456)
 
 def checkC09 (l : Line) : Verdict :=
   if l.stream == "c09.frame" then checkFrame l
